@@ -87,6 +87,17 @@ static inline _Bool vd_type_ok(int type, int rows, int columns)
 }
 
 /*
+ * "pointer is NULL iff the allocation count is 0".  After a failed
+ * allocation (C12 only, -DWF_AFTER_FAULT) a block may already have been
+ * extended while its count was not: then only "count != 0 => valid block".
+ */
+#ifdef WF_AFTER_FAULT
+#define WF_NULL_IFF_ZERO(p, n)	((n) != 0 && (p) == NULL)
+#else
+#define WF_NULL_IFF_ZERO(p, n)	(((p) == NULL) != ((n) == 0))
+#endif
+
+/*
  * wf_vnadata: the representation invariant.
  */
 static _Bool wf_vnadata(const vnadata_internal_t *vdip)
@@ -110,13 +121,15 @@ static _Bool wf_vnadata(const vnadata_internal_t *vdip)
 	return 0;
     if (!vd_type_ok((int)vdp->vd_type, rows, columns))
 	return 0;
+    if (vdip->vdi_fprecision < 1 || vdip->vdi_dprecision < 1)
+	return 0;
     if (pa < ports || ma < rows * columns || fa < freqs)
 	return 0;
     if (pa > VD_PA_MAX || ma > VD_MA_MAX || fa > VD_FA_MAX) /* shape bound */
 	return 0;
 
     /* frequency vector: fa doubles, NULL iff fa == 0, slack holds 0 */
-    if ((vdp->vd_frequency_vector == NULL) != (fa == 0))
+    if (WF_NULL_IFF_ZERO(vdp->vd_frequency_vector, fa))
 	return 0;
     if (fa != 0 && !VERIF_OBJ_SIZE_GE(vdp->vd_frequency_vector,
 		fa * sizeof(double)))
@@ -128,7 +141,7 @@ static _Bool wf_vnadata(const vnadata_internal_t *vdip)
     }
 
     /* data: fa pointers, each ma cells (NULL iff ma == 0), slack holds 0 */
-    if ((vdp->vd_data == NULL) != (fa == 0))
+    if (WF_NULL_IFF_ZERO(vdp->vd_data, fa))
 	return 0;
     if (fa != 0 && !VERIF_OBJ_SIZE_GE(vdp->vd_data, fa * sizeof(cell_t *)))
 	return 0;
@@ -163,7 +176,7 @@ static _Bool wf_vnadata(const vnadata_internal_t *vdip)
     } else {
 	cell_t **zz = vdip->vdi_z0_vector_vector;
 
-	if ((zz == NULL) != (fa == 0))
+	if (WF_NULL_IFF_ZERO(zz, fa))
 	    return 0;
 	if (fa != 0 && !VERIF_OBJ_SIZE_GE(zz, fa * sizeof(cell_t *)))
 	    return 0;
@@ -330,6 +343,7 @@ static vnadata_internal_t *mk_vnadata_build(int type, int rows, int columns,
     ASSUME(pa >= ports && pa <= VD_PA_MAX);
     ASSUME(ma >= rows * columns && ma <= VD_MA_MAX);
     ASSUME(fa >= freqs && fa <= VD_FA_MAX);
+    ASSUME(fprecision >= 1 && dprecision >= 1);
 
     vdip = malloc(sizeof(*vdip));
     ASSUME(vdip != NULL);
